@@ -296,7 +296,17 @@ class Gen:
         if r < 0.48:
             return self.g_anyof(d, dom)
         if r < 0.56:
-            return ("allof", tuple(self.g_attr(d - 1, dom) for _ in range(rng.randint(2, 3))))
+            kids = [self.g_attr(d - 1, dom) for _ in range(rng.randint(2, 3))]
+            if rng.random() < 0.3:           # a member that is inferable only through an int / range variable
+                ints = [a.data for a in dom if isinstance(a, u.b.IntAttr)]
+                arrs = [a for a in dom if isinstance(a, u.b.ArrayAttr)]
+                if ints and (not arrs or rng.random() < 0.5):
+                    kids[0] = ("intattr", self._var("ivar", "i", rng.choice(INT_VARS), lambda: self.g_int(0, ints)))
+                elif arrs:
+                    elems = [e for a in arrs for e in a.data] or u.POOL
+                    kids[0] = ("array", self._var("rangevar", "r", rng.choice(RANGE_VARS), lambda: ("rangeof", self.leaf(elems))))
+                rng.shuffle(kids)
+            return ("allof", tuple(kids))
         if r < 0.74:
             return self.g_param(d, dom)
         if r < 0.86:
@@ -406,8 +416,10 @@ class Synth:
                 env = e2
                 ps.append(p)
             try:
-                return cls.new(tuple(ps))
-            except (VerifyException, ValueError, TypeError, AttributeError, AssertionError):
+                r = cls.new(tuple(ps))
+                str(r)
+                return r
+            except Exception:  # noqa: BLE001 - generator side: the candidate is simply not a constructible attribute
                 return None                                  # not a constructible attribute: no witness this way
         if tag == "anyof":
             alts = list(t[1])
@@ -479,8 +491,10 @@ class Synth:
             else:
                 ps[i] = rng.choice(u.PARAM_DOM[(type(a), i)])
             try:
-                return type(a).new(tuple(ps))
-            except (VerifyException, ValueError, TypeError, AttributeError, AssertionError):
+                r = type(a).new(tuple(ps))
+                str(r)      # e.g. dense attributes with a byte payload that does not match the type are not attributes
+                return r
+            except Exception:  # noqa: BLE001 - generator side: the candidate is simply not a constructible attribute
                 return None
         sib = u.BYCLS.get(type(a), [])
         return rng.choice(sib) if sib else None
@@ -618,6 +632,135 @@ def real_verify(c, value, ctx):
         return "crash", e
 
 
+def ref_int_inferable(t, names):
+    """Reference reading of IntConstraint.can_infer: the int is determined by the constraint and the bound names."""
+    tag = t[0]
+    if tag == "ieq":
+        return True
+    if tag == "iset":
+        return len(set(t[1])) == 1
+    if tag == "ivar":
+        return t[1] in names or ref_int_inferable(t[2], names)
+    return False
+
+
+def ref_can_infer(t, names, length_known=False):
+    """Reference reading of can_infer (used only to CLASSIFY inference failures, never for the verdict)."""
+    u = U()
+    tag = t[0]
+    if tag == "eq":
+        return True
+    if tag == "base":
+        return u.ARITY.get(t[1], -1) == 0
+    if tag == "param":
+        return t[1] in u.ARITY and all(ref_can_infer(k, names) for k in t[2])
+    if tag == "allof":
+        return any(ref_can_infer(k, names) for k in t[1])
+    if tag == "var":
+        return t[1] in names or ref_can_infer(t[2], names)
+    if tag == "msg":
+        return ref_can_infer(t[1], names)
+    if tag == "array":
+        return ref_can_infer(t[1], names, False)
+    if tag == "intattr":
+        return ref_int_inferable(t[1], names)
+    if tag == "rangeof":
+        return length_known and ref_can_infer(t[1], names)
+    if tag == "single":
+        return ref_can_infer(t[1], names)
+    if tag == "rangevar":
+        return t[1] in names or ref_can_infer(t[2], names, length_known)
+    if tag == "rangelen":
+        if t[2][0] == "ieq" and t[2][1] == 0:
+            return True
+        return ref_can_infer(t[1], names, length_known or ref_int_inferable(t[2], names))
+    return False
+
+
+def has_wrong_arity(tree):
+    from xv import c09_ref as R
+    u = U()
+    return any(t[0] == "param" and len(t[2]) != u.ARITY.get(t[1], len(t[2])) for t in R.subtrees(tree))
+
+
+def _uninferable_rangelen(t, names, length_given, multi_set_only=False):
+    """Is there a RangeLengthConstraint that infer() reaches WITHOUT a length although its own length constraint is
+    not inferable from `names`?  (length_given: the caller passes a length down the range spine; ArrayOfConstraint
+    always calls its range constraint with length=None.)"""
+    tag = t[0]
+    if tag == "rangelen":
+        if not length_given and not ref_int_inferable(t[2], names):
+            ln = t[2]
+            while ln[0] == "ivar":
+                ln = ln[2]
+            if not multi_set_only or (ln[0] == "iset" and len(set(ln[1])) > 1):
+                return True
+        return _uninferable_rangelen(t[1], names, length_given or ref_int_inferable(t[2], names), multi_set_only)
+    if tag == "rangevar":
+        return t[1] not in names and _uninferable_rangelen(t[2], names, length_given, multi_set_only)
+    if tag in ("rangeof", "single", "msg"):
+        return _uninferable_rangelen(t[1], names, False, multi_set_only)
+    if tag == "array":
+        return _uninferable_rangelen(t[1], names, False, multi_set_only)
+    if tag == "var":
+        return t[1] not in names and _uninferable_rangelen(t[2], names, False, multi_set_only)
+    if tag == "tvar":
+        return _uninferable_rangelen(t[2], names, False, multi_set_only)
+    if tag == "param":
+        return any(_uninferable_rangelen(k, names, False, multi_set_only) for k in t[2])
+    if tag in ("allof", "anyof"):
+        return any(_uninferable_rangelen(k, names, False, multi_set_only) for k in t[1])
+    return False
+
+
+def _allof_needs_nonattr_names(tree, env_keys):
+    """Known-mechanism model: an AllOf none of whose members is inferable from the ATTRIBUTE variables alone while one
+    is inferable once int / range variables count (AllOf.infer consults only context.attr_variables)."""
+    from xv import c09_ref as R
+    attr_names = {n for (ns, n) in env_keys if ns == "a"}
+    all_names = {n for (_, n) in env_keys}
+    for t in R.subtrees(tree):
+        if t[0] == "allof":
+            if (not any(ref_can_infer(k, attr_names) for k in t[1])) and any(ref_can_infer(k, all_names) for k in t[1]):
+                return True
+    return False
+
+
+def classify_infer_unsatisfying(tree, env_keys, length_known):
+    """Known mechanism, second symptom: the uninferable length is an IntSetConstraint with several values, whose
+    infer() returns an arbitrary member instead of raising, so a range of the wrong length comes back."""
+    names = {n for (_, n) in env_keys}
+    if _uninferable_rangelen(tree, names, length_known is True, multi_set_only=True):
+        return "infer-unsatisfying:rangelen-infers-uninferable-length"
+    return f"infer-unsatisfying:{_desc(tree)}"
+
+
+def classify_infer_raise(tree, env_keys, length_known, exc):
+    """Mechanism key of a 'can_infer true but infer raised'.  Known mechanisms are confirmed by their model:
+    (1) RangeLengthConstraint.infer(length=None) infers its LENGTH unconditionally although can_infer only asks the
+        inner range constraint: ValueError from IntConstraint.infer, and the tree has such a node on the path infer takes;
+    (2) AllOf.infer consults only context.attr_variables: ValueError raised by AllOf.infer itself, and the tree has an
+        AllOf that is inferable only through an int / range variable.
+    Anything else keeps the generic key (exception type + innermost raising function)."""
+    inner = _innermost(exc)
+    names = {n for (_, n) in env_keys}
+    if isinstance(exc, ValueError) and inner == "IntConstraint.infer" and _uninferable_rangelen(tree, names, length_known is True):
+        return "infer-raises:rangelen-infers-uninferable-length"
+    if isinstance(exc, ValueError) and inner == "AllOf.infer" and _allof_needs_nonattr_names(tree, env_keys):
+        return "infer-raises:allof-ignores-int-and-range-variables"
+    return f"infer-raises:{type(exc).__name__}:{inner}"
+
+
+def vacuous_rangeof(tree, value, depth=0):
+    """Does evaluating `tree` on `value` apply some RangeOf to an EMPTY range?  (Then the element constraint is not
+    witnessed by the value at all; inference is only checked on non-vacuous witnesses.)"""
+    if depth > 20:
+        return False
+    if tree[0] == "rangeof" and len(value) == 0:
+        return True
+    return any(vacuous_rangeof(sub, sv, depth + 1) for sub, sv in children_with_values(tree, value))
+
+
 def children_with_values(tree, value):
     u = U()
     tag = tree[0]
@@ -752,6 +895,12 @@ class Runner:
         inferred value satisfies the constraint under V (reference and real)."""
         from xv import c09_ref as R
         m, rng = self.m, self.rng
+        if has_wrong_arity(tree):
+            m.count("inference_skipped_wrong_arity_param")
+            return False
+        if vacuous_rangeof(tree, value):
+            m.count("inference_skipped_vacuous_witness")
+            return False
         keys = sorted(env1)
         subsets = [(), tuple(keys)]
         for k in keys:
@@ -781,7 +930,7 @@ class Runner:
                     else:
                         r = tuple(c.infer(R.ctx_of_env(envV), length=len(value) if lk else None))
                 except Exception as e:  # noqa: BLE001 - the property: can_infer true => infer must not raise
-                    m.viol(f"infer-raises:{type(e).__name__}:{_innermost(e)}",
+                    m.viol(classify_infer_raise(tree, sub, lk, e),
                            f"can_infer({sorted(names)}) is true but infer raised {type(e).__name__}: {e}",
                            self.witness(tree, c, value, envV, route, length_known=lk, known_witness=_show_value(value)))
                     continue
@@ -793,7 +942,7 @@ class Runner:
                 same = R.same_range(r, value) if lv == "range" else R.same_attr(r, value)
                 m.count("inferred_equals_witness" if same else "inferred_differs_from_witness")
                 if not want or st != "ok":
-                    m.viol(f"infer-unsatisfying:{_desc(tree)}",
+                    m.viol(classify_infer_unsatisfying(tree, sub, lk),
                            f"can_infer({sorted(names)}) is true and infer returned {_show_value(r)}, which the constraint "
                            f"{'rejects' if st != 'ok' else 'accepts'} and the definition {'rejects' if not want else 'accepts'}",
                            self.witness(tree, c, value, envV, route, inferred=_show_value(r), length_known=lk))
@@ -1021,8 +1170,11 @@ def case_tree(mon, seed, idx, tier, want_tv=False):
             built.append(None)
             continue
         except Exception as e:  # noqa: BLE001
-            mon.viol(f"crash:construct:{type(e).__name__}:{_innermost(e)}", f"building the constraint raised {type(e).__name__}: {e}",
-                     {"tree": R.tree_show(t)})
+            if isinstance(e, ValueError) and has_wrong_arity(t) and _innermost(e) == "ParametrizedAttribute.new":
+                mon.count("construction_rejected_wrong_arity")      # API misuse by the generator, on purpose
+            else:
+                mon.viol(f"crash:construct:{type(e).__name__}:{_innermost(e)}", f"building the constraint raised {type(e).__name__}: {e}",
+                         {"tree": R.tree_show(t)})
             built.append(None)
             continue
         mon.count("constraints_built")
@@ -1066,6 +1218,9 @@ def case_tree(mon, seed, idx, tier, want_tv=False):
                 mon.count("mapping_rejected_VerifyException")
                 continue
             except Exception as e:  # noqa: BLE001
+                if isinstance(e, ValueError) and has_wrong_arity(t1) and _innermost(e) == "ParametrizedAttribute.new":
+                    mon.count("mapping_rejected_wrong_arity")
+                    continue
                 mon.viol(f"crash:mapping_type_vars:{type(e).__name__}:{_innermost(e)}",
                          f"mapping_type_vars raised {type(e).__name__}: {e}",
                          {"tree": R.tree_show(t), "mapping": {str(k): R.tree_show(v) for k, v in mapping_trees.items()}})
